@@ -246,13 +246,17 @@ def direct_oracle(spec, c):
             key = ("alt:" if "alt" in p else "") + p.get("opt", "plain") + (":force" if p.get("force_equality") else "")
             key += ":" + ("notin" if notin else "present" if moles > 0 else "absent")
             st["phase_states"][key] = st["phase_states"].get(key, 0) + 1
-            msg = valid_phase(moles, d, initial, p.get("opt"))
+            msg = None if notin else valid_phase(moles, d, initial, p.get("opt"))
             if msg:
                 (alt if "alt" in p else problems).append(f"block {b['k']} (sim {sim} step {b['step']}): {nm} target SI {p['si']}: {msg}")
             last_in_sim[nm] = moles
-        if "exchange" in spec and "sys:X" in R:
+        if "exchange" in spec and "totx:X" in R:
             st["ex"] += 1
-            sx = R["sys:X"]
+            # SYS("X") adds and subtracts the dummy amount of the exchange master species (cancellation ~1e-10 relative):
+            # it is only a loose cross-check; the sum over the exchange species is TOT("X")*TOT("water")
+            sx = R["totx:X"]
+            if "sys:X" in R and sx > 1e-9:
+                st["sys_vs_tot_max_rel"] = max(st.get("sys_vs_tot_max_rel", 0.0), abs(R["sys:X"] - sx) / sx)
             if capX is not None:
                 ref = last_step.get("sys:X", startX) if incr else startX
                 if abs(sx - ref) > EPS_CAP * ref:
@@ -467,6 +471,7 @@ def run(ctx):
             hist["phase_states"][k] = hist["phase_states"].get(k, 0) + v
         for k in ("ex", "su", "ss_ideal", "ss_binary", "dump_checked", "initial_mismatch"):
             hist[k] = hist.get(k, 0) + st.get(k, 0)
+        hist["sys_vs_tot_max_rel"] = max(hist.get("sys_vs_tot_max_rel", 0.0), st.get("sys_vs_tot_max_rel", 0.0))
         if "local minimum" in c.get("warn", ""):
             hist["warn_local_minimum"] += 1
         vf = [r for r in rl if r[0] == "V" and not r[4]]
